@@ -107,6 +107,12 @@ def run(tier, seed):
         h = list(s["h"])
         for _ in range(rnd.randint(1, 3)):
             h.insert(rnd.randint(0, len(h)), {"a": "oncebad", "n": rnd.randrange(NBAD)})
+        # case 11 runs a (non-blocking) loop call of its own: callbacks and finalizers may run there which the generated
+        # history does not account for, so the history ends with it (the lock discipline is judged up to and including it)
+        for i, st_ in enumerate(h):
+            if st_["a"] == "oncebad" and st_["n"] == 11:
+                h = h[:i + 1]
+                break
         bad.append({"cfg": dict(dc), "h": h})
     for s in bad:
         chk.count_case(s["h"], True)
